@@ -340,6 +340,11 @@ def parse_const(s):
     m = re.match(r'^core::num::<impl (\w+)>::(MAX|MIN)$', s)
     if m:
         return parse_const('%s::%s' % (m.group(1), m.group(2)))
+    if s.startswith('ZeroSized: '):
+        t = s[len('ZeroSized: '):]
+        if t.startswith('{closure@'):
+            return Const('closure', t, parse_type(t), s)
+        return Const('fn', t, None, s)
     return Const('named', s, None, s)
 
 
@@ -627,7 +632,16 @@ def parse_mir(text):
                 m = _FnHdr(line[3:k], line[k + 1:j], line[j + 5:-2])
         mc = None
         if not m and (line.startswith('const ') or line.startswith('static ')):
-            mc = _hdr_const.match(line)
+            mc = None
+            k = line.find(' = ')
+            if k > 0:
+                left = line[:k]
+                left = left[6:] if left.startswith('const ') else left.split(' ', 1)[1]
+                if left.startswith('mut '):
+                    left = left[4:]
+                if ': ' in left:
+                    nm, ty = left.rsplit(': ', 1)
+                    mc = _FnHdr(nm, ty, line[k + 3:])
         if m or mc:
             f = Function()
             f.header = line
@@ -652,6 +666,9 @@ def parse_mir(text):
                 f.is_const_item = True
                 f.params = []
                 f.ret = parse_type(mc.group(2))
+                mi0 = re.search(r'<impl at ([^>]*?):(\d+):(\d+): (\d+):(\d+)>', f.name)
+                if mi0:
+                    f.impl_span = (mi0.group(1), int(mi0.group(2)), int(mi0.group(3)), int(mi0.group(4)), int(mi0.group(5)))
                 rhs = mc.group(3).strip()
                 if rhs != '{':
                     # one-line constant:  const X: T = const V;
@@ -661,6 +678,9 @@ def parse_mir(text):
                     b.term = ('return',)
                     f.blocks[0] = b
                     f.locals[0] = f.ret
+                    f.nlocals = 1
+                    f.ipdom = None
+                    f.n_stmts = 1
                     if not skip_next_fn:
                         funcs.append(f)
                     skip_next_fn = False
